@@ -245,6 +245,22 @@ def parse_arguments_tables():
             body = t[j + 1:k]
             bv = [x.v for x in body]
             entries = []
+            try:
+                _parse_arguments_fn(name, kind, body, bv, entries, out, t[i].line)
+            except ShapeError as ex:
+                # a hand-restructured table: not readable token-wise; the MIR legs (c03.mask_parameter_bits / enum_parameter_values)
+                # execute the function itself and do not depend on this reader
+                out[name] = dict(kind=kind, form="irregular", entries=[], line=t[i].line, irregular=str(ex))
+            i = k
+        else:
+            i += 1
+    return out
+
+
+def _parse_arguments_fn(name, kind, body, bv, entries, out, line):
+    if True:
+        if True:
+            t = None
             if bv[:6] == ["let", "mut", "params", "=", "vec!", "["]:
                 # mask form: sequence of `if x.contains(spirv::K::BIT) { params.append(&mut vec![...]); }`
                 p = bv.index(";") + 1
@@ -277,7 +293,7 @@ def parse_arguments_tables():
                 form = "mask"
             else:
                 if bv[:3] != ["Ok", "(", "match"]:
-                    raise ShapeError("shape of %s at line %d" % (name, t[i].line))
+                    raise ShapeError("shape of %s at line %d" % (name, line))
                 bo = bv.index("{")
                 bc = match_close(body, bo)
                 for pat, expr in match_arms(body[bo + 1:bc]):
@@ -294,12 +310,9 @@ def parse_arguments_tables():
                         names.append(av[4])
                     entries.append((names, _operand_ctor_list(_strip_block(expr))))
                 form = "enum"
-            out[name] = dict(kind=kind, form=form, entries=entries, line=t[i].line)
+            out[name] = dict(kind=kind, form=form, entries=entries, line=line)
             if form == "mask" and else_of:
                 out[name]["else_of"] = else_of
-            i = k
-        i += 1
-    return out
 
 
 def _logical_operand_list(toks):
